@@ -72,7 +72,16 @@ def toX : V → X
   | some q => .fin q
   | none => .nan
 
-/-- binary64 round-to-nearest-even of a non-negative rational in the normal range (C09's `rn53`) -/
-def rnd64 (q : Rat) : Rat := Pyunicorn.Similarity.rn53 q
+/-- binary64 round-to-nearest-even of a rational `q ≥ 0` (the `abs` has been taken), *with gradual
+underflow*: the exponent of the last place is `⌊log₂ q⌋ - 52`, clamped at `-1074` (round 5; rounds
+3–4 used C09's `rn53`, which has no clamp — `Properties/C08.lean` `rnd64_eq_rn53_on_differences`
+proves that the two agree on every difference of two doubles, and `rnd64_eq_rn53_normal` in the
+normal range).  Overflow of a finite difference to `inf` is not modelled. -/
+def rnd64 (q : Rat) : Rat :=
+  if q ≤ 0 then 0 else
+    let e0 := Pyunicorn.Similarity.binExp q - 52
+    let e := if e0 < -1074 then -1074 else e0
+    (Pyunicorn.Similarity.roundHalfEven (q / Pyunicorn.Similarity.twoPow e) : Rat)
+      * Pyunicorn.Similarity.twoPow e
 
 end Pyunicorn.LineDist
